@@ -338,6 +338,115 @@ def _near_tie(kind, r, pol):
     return False
 
 
+# --------------------------------------------------------------------------
+# policy objects driven directly (stub solver): arbitrary histories incl. inf / NaN / overflow
+
+
+class _StubF:
+    def __init__(self):
+        self.next_grad = None
+
+    def grad(self, v):
+        return self.next_grad
+
+
+class _StubPGM:
+    def __init__(self, L):
+        self.L = L
+        self.f = _StubF()
+
+
+_SPECIAL = [0.0, 0.0, 1.0, -1.0, 0.5, 2.0, -3.0, 1e200, -1e200, 1e-200, float("inf"), float("-inf"), float("nan")]
+
+
+def check_stub_histories(ctx, model, n_hist):
+    """BB / adaptive BB `update` called on a stub `pgm` with prescribed iterates and gradients, so that the
+    inner products take every kind of value (zero, negative, huge -> overflow to inf, inf, NaN): the Lean rules at
+    `Float` must agree with the real arithmetic on every call of the history, L fed back as the solver does."""
+    import scico.numpy as snp
+    from scico.optimize.pgm import AdaptiveBBStepSize, BBStepSize
+
+    rng = ctx.rng
+    for h in range(n_hist):
+        kind = "bb" if h % 2 == 0 else "abb"
+        kappa = float([0.25, 0.5, 0.75, float("nan")][int(rng.integers(0, 4))])
+        pol = BBStepSize() if kind == "bb" else AdaptiveBBStepSize(kappa=kappa)
+        pgm = _StubPGM(float([1.0, 0.5, 4.0][int(rng.integers(0, 3))]))
+        pol.internal_init(pgm)
+        steps = int(rng.integers(3, 9))
+        special = rng.integers(0, 3) == 0
+        hist = []
+        for i in range(steps):
+            def vec():
+                if special:
+                    return np.array([_SPECIAL[int(rng.integers(0, len(_SPECIAL)))] for _ in range(2)], dtype=np.float64)
+                return common.dyadic(rng, (2,), bits=2, scale=3.0) * (0.0 if rng.integers(0, 5) == 0 else 1.0)
+
+            v, g = vec(), vec()
+            first = pol.xprev is None
+            if not first:
+                with np.errstate(all="ignore"):
+                    dx = snp.array(v) - pol.xprev
+                    dg = snp.array(g) - pol.gradprev
+                    xx = float(snp.real(snp.sum(dx.conj() * dx)))
+                    xg = float(snp.real(snp.sum(dx.conj() * dg)))
+                    gg = float(snp.real(snp.sum(dg.conj() * dg)))
+            mem = (None, None)
+            if kind == "abb":
+                mem = (None if pol.Lbb1prev is None else float(pol.Lbb1prev), None if pol.Lbb2prev is None else float(pol.Lbb2prev))
+            pgm.f.next_grad = snp.array(g)
+            Lprev = float(pgm.L)
+            L = float(pol.update(snp.array(v)))
+            case = {"what": "stub-history", "kind": kind, "kappa": kappa, "step": i, "v": v.tolist(), "g": g.tolist(), "Lprev": Lprev, "history": hist[-6:]}
+            hist.append([v.tolist(), g.tolist()])
+            ctx.case({"what": "stub", "kind": kind, "step": i}, None if first else f"stub:{ctx.seed}:{h}:{i}")
+            if first:
+                if not _same(L, Lprev):
+                    ctx.disagree("stepsize.stub.first", case, L, Lprev)
+            elif kind == "bb":
+                m = b2f(model.call("bb", Lprev=f2b(Lprev), xg=f2b(xg), gg=f2b(gg)))
+                ctx.count("stub:bb:" + ("nan" if math.isnan(gg / xg if xg != 0 else (float("nan") if gg == 0 or math.isnan(gg) else math.copysign(float("inf"), gg))) else "num"))
+                if not _same(L, m):
+                    ctx.disagree("stepsize.stub.bb", {**case, "ips": [xx, xg, gg]}, L, m, oracle=_oracle_stub)
+            else:
+                out = model.call("abb", kappa=f2b(kappa), Lprev=f2b(Lprev), m1=_optb(mem[0]), m2=_optb(mem[1]), xx=f2b(xx), xg=f2b(xg), gg=f2b(gg))
+                mm = (None if out["m1"] is None else b2f(out["m1"]), None if out["m2"] is None else b2f(out["m2"]))
+                ia = (None if pol.Lbb1prev is None else float(pol.Lbb1prev), None if pol.Lbb2prev is None else float(pol.Lbb2prev))
+                memok = all((a is None and b is None) or (a is not None and b is not None and _same(a, b)) for a, b in zip(ia, mm))
+                ctx.count("stub:abb-mem-" + "".join("s" if x is not None else "n" for x in ia))
+                if not _same(L, b2f(out["L"])) or not memok:
+                    ctx.disagree("stepsize.stub.abb", {**case, "ips": [xx, xg, gg], "mem": mem}, {"L": L, "mem": ia}, {"L": b2f(out["L"]), "mem": mm}, oracle=_oracle_stub)
+            if not first and not (math.isfinite(L) and L > 0) and (math.isfinite(Lprev) and Lprev > 0):
+                ctx.violation({"kind": "failing-input", "case": {**case, "ips": [xx, xg, gg]}, "failing": {"why": "returned L is not a finite positive number", "L": L}}, True,
+                              "stepsize.stub: property fails on the implementation")
+            pgm.L = L  # as PGM.step does
+
+
+def _oracle_stub(case):
+    """property on the implementation for one stub call, recomputed from the recorded history alone:
+    BB returns the documented ratio when it is finite positive, the previous L otherwise"""
+    if case.get("kind") != "bb":
+        return None
+    xx, xg, gg = case["ips"]
+    with np.errstate(all="ignore"):
+        r = float(np.float64(gg) / np.float64(xg))
+    want = r if G.finite_pos(r) else case["Lprev"]
+    import scico.numpy as snp
+    from scico.optimize.pgm import BBStepSize
+
+    pol = BBStepSize()
+    pgm = _StubPGM(case["Lprev"])
+    pol.internal_init(pgm)
+    L = None
+    for v, g in case["history"][-1:] + [[case["v"], case["g"]]]:
+        pgm.f.next_grad = snp.array(np.asarray(g, dtype=np.float64))
+        L = float(pol.update(snp.array(np.asarray(v, dtype=np.float64))))
+    if not _same(L, want):
+        return {"why": "BB: L is neither the documented ratio nor the previous value", "L": L, "documented_ratio": r, "Lprev": case["Lprev"],
+                "previous (v, grad)": case["history"][-1:], "current (v, grad)": [case["v"], case["g"]]}
+    return None
+
+
 def _corpus():
     d = common.CORPUS_DIR / PROP
     out = []
@@ -356,6 +465,7 @@ def correspond(ctx, model):
     for case in G.crafted_cases():
         ctx.count("crafted")
         check_case(ctx, model, case, origin="crafted")
+    check_stub_histories(ctx, model, ctx.n(60, 600))
     n = ctx.n(220, 1500)
     for _ in range(n):
         p = G.gen_problem(ctx.rng)
